@@ -540,6 +540,15 @@ func c07Report(c *mon.Ctx, role string, input []byte, f c07Finding) {
 	c.Count("monitor firings: "+f.Monitor, 1)
 	want := f.key()
 	c.Count("finding class "+role+"|"+want, 1)
+	// the batteries run below are complete ones (every variant); in single-unit mode they are
+	// mirrored like the unit's own batteries, so that a fatal error in one of them is attributed
+	mkCur := func(in []byte) *c07Current {
+		cur := &c07Current{role: role, input: in, unit: c.Unit}
+		if c07SingleUnit() {
+			cur.mirror = c07SideFile(c.Unit)
+		}
+		return cur
+	}
 	budget := 300
 	same := func(in []byte) *c07Finding {
 		budget--
@@ -547,7 +556,7 @@ func c07Report(c *mon.Ctx, role string, input []byte, f c07Finding) {
 			budget = 0
 			return nil
 		}
-		r, hung := c07Guarded(role, in, true, 0, &c07Current{role: role, input: in, unit: c.Unit})
+		r, hung := c07Guarded(role, in, true, 0, mkCur(in))
 		if hung != nil {
 			budget = 0
 			return nil
@@ -565,7 +574,7 @@ func c07Report(c *mon.Ctx, role string, input []byte, f c07Finding) {
 		// the complete battery meets another class first: keep the input as it is
 		if c07Abandoned.Load() {
 			bf = &f
-		} else if g := c07Judge(role, input); g != nil {
+		} else if g := c07JudgeAs(mkCur(input)); g != nil {
 			bf = g
 		} else {
 			bf = &f
@@ -586,7 +595,7 @@ func c07Report(c *mon.Ctx, role string, input []byte, f c07Finding) {
 	}
 	first := bf
 	if !c07Abandoned.Load() {
-		if g := c07Judge(role, best); g != nil {
+		if g := c07JudgeAs(mkCur(best)); g != nil {
 			first = g
 		}
 	}
